@@ -84,7 +84,12 @@ int STUB(sigaction)(int sig, const struct sigaction *sa, struct sigaction *old)
 	return 0;
 }
 int iv_event_raw_register(struct iv_event_raw *this) { g_raw_reg++; return 0; }
-void iv_event_raw_unregister(struct iv_event_raw *this) { g_raw_unreg++; if (g_lock_held) g_raw_unreg_locked++; }
+void iv_event_raw_unregister(struct iv_event_raw *this)
+{
+	g_raw_unreg++;
+	if (g_lock_held) g_raw_unreg_locked++;
+	__CPROVER_assert(g_del >= 1, "[C10,C18] the interest has left its set (under the signal lock) before its wake-up descriptor is closed: a signal delivered in between must not post to a closed, possibly re-used, descriptor");
+}
 void iv_event_raw_post(const struct iv_event_raw *this)
 {
 	int i;
